@@ -99,6 +99,7 @@ type Path struct {
 type ufApp struct {
 	args []*Term
 	res  *Term
+	resv []*Term
 }
 
 func (p *Path) warn(msg string) {
